@@ -317,6 +317,11 @@ struct ScaledUnit : Unit {
                   "Can only scale by a Magnitude<...> type");
     using Dim = detail::DimT<Unit>;
     using Mag = MagProductT<detail::MagT<Unit>, ScaleFactor>;
+
+    // A scaled unit is a different unit than `Unit`, so it must not inherit the label of `Unit`.
+    // Hiding the name makes any type that derives from a `ScaledUnit` unlabeled, unless it provides
+    // its own `label` member.  (`ScaledUnit` itself gets its label from `UnitLabel<ScaledUnit<...>>`.)
+    using label = void;
 };
 
 // Type template to hold the product of powers of Units.
